@@ -13,8 +13,23 @@ impl InstructionGenerator {
     ) {
         let expression_type = expr_pos.expression_type();
         let pos = expr_pos.pos();
+        // the run-time type of a computed value can differ from its static type (e.g. division)
+        let is_computed = !matches!(
+            expr_pos.element,
+            Expression::SingleLiteral(_)
+                | Expression::DoubleLiteral(_)
+                | Expression::StringLiteral(_)
+                | Expression::IntegerLiteral(_)
+                | Expression::LongLiteral(_)
+                | Expression::Variable(_, _)
+                | Expression::ArrayElement(_, _, _)
+                | Expression::Property(_, _, _)
+        ) && matches!(
+            target_type,
+            ExpressionType::BuiltIn(q) if q != TypeQualifier::DollarString
+        );
         self.generate_expression_instructions(expr_pos);
-        if expression_type != target_type {
+        if expression_type != target_type || is_computed {
             match target_type {
                 ExpressionType::BuiltIn(q) => {
                     self.push(Instruction::Cast(q), pos);
